@@ -22,6 +22,20 @@ def main() -> int:
     from harness import c18_probe as P
     from harness.apps import inject_status, make_app, rctx
 
+    if a.get("mode") == "gen":
+        # an execution that finds nothing recorded (a recovery re-run racing the original, in another process image):
+        # the values this interpreter GENERATES for (workflow, op, sequence)
+        from pynenc.identifiers.task_id import TaskId
+        from pynenc.workflow.workflow_deterministic import DeterministicExecutor
+        from pynenc.workflow.workflow_identity import WorkflowIdentity
+
+        app = make_app("mem", a["tmp"], a["app_id"])
+        out = {}
+        for wid in a["workflows"]:
+            ex = DeterministicExecutor(WorkflowIdentity.new_workflow(wid, TaskId("harness.tasks", "wf_script")), app)
+            out[wid] = {"random": [ex.random() for _ in range(a["n"])], "uuid": [ex.uuid() for _ in range(a["n"])]}
+        print(json.dumps({"values": out}))
+        return 0
     app = make_app("sqlite", a["tmp"], a["app_id"], db=a["db"])
     P.install(app)
     clock = P.install_clock(a["tick"])
